@@ -41,7 +41,8 @@ META = {
             "steps; distinct by (stream, configuration, letter word / value-kind, dtype, shape).",
     "trusted": ["torch comparison/promotion semantics (python scalar thresholds are cast to the tensor dtype)",
                 "python object state of a controller is its __dict__ (state merging in the graph stream relies on it)"],
-    "assumptions": ["losses are finite and not -0.0; the loss shape is constant along a run",
+    "assumptions": ["num.* streams (192-bit comparison of rounded float decisions): losses finite, not -0.0, shape constant "
+                    "between resets; the numx.* streams drop all three (NaN, +-inf, -0.0, shapes changing by broadcasting)",
                     "float decisions that flip under rounding (exact (last-loss)/loss vs threshold differs from the "
                     "float evaluation) are regenerated, not compared"],
     "partial": ["StopOnPlateau/_Scheduler has no reset() in /repo: for it the 'until reset' part of the clause has no "
@@ -1017,6 +1018,259 @@ def run_num_sop(ctx: Ctx, n_cases, n_max):
         ctx.sample({"stream": "num.sop", **{k: v for k, v in c.items() if k != "script"}, "script_head": c["script"][:3]}, cap=12)
 
 
+# ----------------------------------------------------------------------------- extended model: IEEE specials, shapes
+
+XVALS = [0.0, 1.0, -1.0, 2.0, 0.5, 3.0, 4.0, 8.0, -2.0, 0.25, 1.0, 2.0, 4.0, -0.0, float("inf"), float("-inf"), float("nan")]
+XSHAPES = [[], [1], [3], [1, 3], [3, 1], [2, 3], [3, 3], [2, 1, 3], [1, 1], [0], [2], [2, 2]]
+
+
+def xtok(v: float) -> str:
+    if v != v:
+        return "nan"
+    if v in (float("inf"), float("-inf")):
+        return "inf" if v > 0 else "-inf"
+    if v == 0 and math.copysign(1.0, v) < 0:
+        return "-0"
+    return to_wire(v)
+
+
+def gen_rtbx_case(ctx: Ctx, n_max=14):
+    rng = ctx.rng
+    special = rng.random() < 0.7            # NaN / inf / -0.0 among the losses
+    reshape = rng.choice(["const", "const", "compatible", "any"])   # how the loss shape evolves along the run
+    vals = XVALS if special else XVALS[:13]
+    shape = rng.choice(XSHAPES)
+    events = []
+    for _ in range(rng.randint(1, n_max)):
+        if events and rng.random() < 0.08:
+            events.append(["R"])
+            continue
+        if reshape != "const" and rng.random() < 0.4:
+            shape = rng.choice(XSHAPES if reshape == "any" else [[], [1], [3], [1, 3], [3, 1], [3, 3], [2, 1, 3], [2, 3]])
+        n = int(math.prod(shape)) if shape else 1
+        if rng.random() < 0.3:
+            v = [rng.choice(vals)] * n
+        else:
+            v = [rng.choice(vals) for _ in range(n)]
+        events.append(["S", list(shape), v])
+    thr = [0.5, 1.0, 0.25, 0.0, -0.5, 0.5, 1.0] + ([float("inf"), float("-inf"), float("nan")] if special else [])
+    verbose, style = draw_style(rng, 0.3)
+    return {"kind": "numx.rtb", "steps": rng.choice([1, 2, 3, 5, 8, 30]), "patience": rng.choice([1, 2, 2, 3, 5]),
+            "d": rng.choice(thr), "tol": rng.choice([1.0, 0.5, -1.0, 0.0, 2.0] + thr[7:]), "dtype": rng.choice(["float64", "float32"]),
+            "verbose": verbose, "style": style, "events": events}
+
+
+def rtbx_line(case):
+    toks = []
+    for ev in case["events"]:
+        if ev[0] == "R":
+            toks.append("R")
+        else:
+            toks.append(f"S {len(ev[1])} " + " ".join(map(str, ev[1])) + (" " if ev[1] else "") + f"{len(ev[2])} "
+                        + " ".join(xtok(v) for v in ev[2]))
+    return f"c20.rtbx {case['steps']} {case['patience']} {xtok(case['d'])} {xtok(case['tol'])} " + " ".join(toks)
+
+
+def check_rtbx(ctx: Ctx, case, model_reply=None) -> bool:
+    """losses with NaN / +-inf / -0.0 and shapes that change along the run (torch broadcasting of `last` against
+    `loss`): real code vs the property evaluated with numpy's IEEE arithmetic and broadcasting, vs the extended model"""
+    import numpy as np
+    ok = True
+    try:
+        st = new_rtb(case)
+    except Exception as e:
+        ctx.fail(case, f"raises: constructor {type(e).__name__}: {e}")
+        return False
+    npd = U.NP[case["dtype"]]
+    d, tol = npd(case["d"]), npd(case["tol"])
+    last = np.array(np.inf, dtype=np.float32)
+    real, raised_at, segs = [], None, [[]]
+    for ei, ev in enumerate(case["events"]):
+        if ev[0] == "R":
+            st.reset()
+            real.append((U.ctl_code(st), 2, 2))
+            last = np.array(np.inf, dtype=np.float32)
+            segs.append([])
+            continue
+        arr = np.array(ev[2], dtype=npd).reshape(ev[1])
+        with np.errstate(all="ignore"):
+            try:
+                nd = bool(np.all((last - arr) / arr < d))
+                raises = False
+            except ValueError:
+                nd, raises = None, True
+            bl = bool(np.all(arr < tol))
+        try:
+            st.step(torch.tensor(ev[2], dtype=U.TD[case["dtype"]]).reshape(ev[1]))
+            did_raise = False
+        except RuntimeError:
+            did_raise = True
+        except Exception as e:
+            ctx.fail(dict(case, event=ei), f"raises: step raised {type(e).__name__}: {str(e)[:100]}")
+            return False
+        if did_raise != raises:
+            ctx.fail(dict(case, event=ei), f"broadcast: step(loss of shape {ev[1]}) after last of shape {list(last.shape)} "
+                                           f"{'raised' if did_raise else 'did not raise'}; torch.broadcast_shapes says "
+                                           f"{'incompatible' if raises else 'compatible'}")
+            return False
+        if did_raise:
+            raised_at = ei       # what the stepper holds after a call that failed on the caller's shapes is out of scope
+            break
+        segs[-1].append((nd, bl, False))
+        real.append((U.ctl_code(st), int(nd), int(bl)))
+        last = arr
+        want = spec_trace_segment("rtb", case["steps"], case["patience"], segs[-1], 0)[-1]
+        s_, pc_, c_ = U.st_decode(real[-1][0])
+        if (c_, pc_) != want or s_ != len(segs[-1]):
+            ctx.fail(dict(case, event=ei), f"continual: event {ei} loss {ev[2][:6]} shape {ev[1]}: (steps, continual, patience_count)="
+                                           f"{(s_, c_, pc_)}; the documented causes with IEEE comparisons give "
+                                           f"{(len(segs[-1]), want[0], want[1])} (nodec={nd}, below={bl})")
+            ok = False
+            break
+    if model_reply is not None:
+        st_, toks = common.parse_reply(model_reply)
+        w = [int(t) for t in toks] if st_ == "ok" else []
+        want = [x for r in real for x in (r[0], r[1], r[2])] + ([9, 9, 9] if raised_at is not None else [])
+        if w[:len(want)] != want or (ok and raised_at is None and len(w) != len(want)):
+            j = next((i for i, (a, b) in enumerate(zip(w, want)) if a != b), min(len(w), len(want))) // 3
+            ctx.disagree("numx.rtb", dict(case, event=j), f"event {j} {case['events'][j] if j < len(case['events']) else ''}: "
+                         f"implementation {want[3 * j:3 * j + 3]} model {w[3 * j:3 * j + 3]} (9 = raises)")
+            ok = False
+    return ok
+
+
+def run_numx_rtb(ctx: Ctx, n_cases):
+    cases = [gen_rtbx_case(ctx) for _ in range(n_cases)]
+    reps = ctx.driver.run([rtbx_line(c) for c in cases])
+    for c, rep in zip(cases, reps):
+        guarded(ctx, c, check_rtbx, ctx, c, rep)
+        ctx.note_case(("numx.rtb", c["steps"], c["patience"], xtok(c["d"]), xtok(c["tol"]), c["dtype"],
+                       tuple(tuple(e[1]) if e[0] == "S" else "R" for e in c["events"])), len(c["events"]) >= 2)
+        ctx.count("numx.rtb.cases")
+        ctx.count("numx.rtb.special_values", sum(1 for e in c["events"] if e[0] == "S" for v in e[2] if v != v or abs(v) == float("inf")
+                                                 or (v == 0 and math.copysign(1, v) < 0)))
+    if cases:
+        ctx.sample({"stream": "numx.rtb", **{k: v for k, v in cases[0].items() if k != "events"},
+                    "events_head": [[e[0]] + ([e[1], [xtok(v) for v in e[2]]] if e[0] == "S" else []) for e in cases[0]["events"][:3]]})
+
+
+def gen_sopx_case(ctx: Ctx, n_max=14):
+    rng = ctx.rng
+    vk = rng.choice(["pyfloat", "t0d", "t0d"])
+    verbose, style = draw_style(rng, 0.0)
+    return {"kind": "numx.sop", "steps": rng.choice([1, 2, 3, 5, 8, 30]), "patience": rng.choice([1, 2, 2, 3, 5]),
+            "d": rng.choice([0.5, 1.0, 0.25, 0.0, -0.5, float("inf"), float("nan")]), "vkind": vk,
+            "dtype": "float64" if vk == "pyfloat" else rng.choice(["float64", "float32"]), "has_reject": rng.random() < 0.7,
+            "verbose": False, "style": style,
+            "script": [[rng.choice(XVALS), rng.choice(XVALS), rng.choice([0, 0, 0, 1, 2])] for _ in range(rng.randint(1, n_max))]}
+
+
+def check_sopx(ctx: Ctx, case, model_reply=None) -> bool:
+    import numpy as np
+    opt = FakeOpt(case["has_reject"])
+    sch = new_sop(case, opt)
+    npd = U.NP[case["dtype"]]
+    conv = (lambda v: v) if case["vkind"] == "pyfloat" else (lambda v: torch.tensor(v, dtype=U.TD[case["dtype"]]))
+    obs, real, ok = [], [], True
+    for i, (last, loss, rc) in enumerate(case["script"]):
+        rc_ = rc if case["has_reject"] else None
+        try:
+            opt.feed(conv(last), conv(loss), rc_)
+            sch.step(opt.loss)
+        except Exception as e:
+            ctx.fail(dict(case, step=i), f"raises: StopOnPlateau.step raised {type(e).__name__}: {str(e)[:100]}")
+            return False
+        with np.errstate(all="ignore"):
+            nd = bool(npd(last) - npd(loss) < npd(case["d"]))
+        obs.append((nd, False, rc_ is not None and rc_ > 0))
+        real.append((U.ctl_code(sch), int(nd), int(obs[-1][2])))
+        want = spec_trace_segment("sop", case["steps"], case["patience"], obs, 0)[-1]
+        s_, pc_, c_ = U.st_decode(real[-1][0])
+        if (c_, pc_) != want or s_ != i + 1:
+            ctx.fail(dict(case, step=i), f"continual: step {i + 1} (last, loss, rc)={(xtok(last), xtok(loss), rc_)}: "
+                                         f"(continual, patience_count)={(c_, pc_)}, documented causes with IEEE comparisons give {want}")
+            return False
+    if model_reply is not None:
+        st_, toks = common.parse_reply(model_reply)
+        w = [int(t) for t in toks] if st_ == "ok" else []
+        want = [x for r in real for x in r]
+        if w != want:
+            j = next((i for i, (a, b) in enumerate(zip(w, want)) if a != b), 0) // 3
+            ctx.disagree("numx.sop", dict(case, step=j), f"step {j} {[xtok(v) for v in case['script'][j][:2]]}: implementation "
+                                                         f"{want[3 * j:3 * j + 3]} model {w[3 * j:3 * j + 3]}")
+            ok = False
+    return ok
+
+
+def sopx_line(case):
+    return (f"c20.sopx {case['steps']} {case['patience']} {xtok(case['d'])} "
+            + " ".join(f"{xtok(a)} {xtok(b)} {rc if case['has_reject'] else -1}" for a, b, rc in case["script"]))
+
+
+def run_numx_sop(ctx: Ctx, n_cases):
+    cases = [gen_sopx_case(ctx) for _ in range(n_cases)]
+    reps = ctx.driver.run([sopx_line(c) for c in cases])
+    for c, rep in zip(cases, reps):
+        guarded(ctx, c, check_sopx, ctx, c, rep)
+        ctx.note_case(("numx.sop", c["steps"], c["patience"], xtok(c["d"]), c["vkind"], c["dtype"], len(c["script"])), True)
+        ctx.count("numx.sop.cases")
+
+
+# ----------------------------------------------------------------------------- argument defaulting (model: rtbOfArgs …)
+
+def run_defaults(ctx: Ctx, n_cases):
+    """what the constructors install when optional arguments are omitted, vs the model's `rtbOfArgs/icpStepper/mpcStepper`"""
+    rng = ctx.rng
+    P = pp()
+    lines, reals, cases = [], [], []
+    for _ in range(n_cases):
+        kind = rng.choice(["rtb", "rtb", "icp", "mpc"])
+        given = kind == "rtb" or rng.random() < 0.6
+        args = None
+        if given:
+            args = {"steps": rng.choice([1, 2, 7, 10, 200, 0]), "patience": rng.choice([None, None, 3, 5, 0]),
+                    "decreasing": rng.choice([None, None, 0.5, 1e-3, 0.0]), "tol": rng.choice([None, None, 0.25, 1e-5, -1.0])}
+        case = {"kind": "defaults", "ctl": kind, "args": args}
+        try:
+            st = None
+            if args is not None:
+                st = P.utils.ReduceToBason(args["steps"], **{k: v for k, v in args.items() if k != "steps" and v is not None})
+            if kind == "icp":
+                st = P.module.ICP(stepper=st).stepper
+            elif kind == "mpc":
+                sysm, Q, p_, T, x0, ns, nc = mpc_parts()
+                st = P.module.MPC(sysm, Q, p_, T, stepper=st).stepper
+        except Exception as e:
+            ctx.fail(case, f"raises: constructor raised {type(e).__name__}: {str(e)[:100]}")
+            continue
+        opt = lambda v: "-" if v is None else (str(v) if isinstance(v, int) else to_wire(v))
+        lines.append(f"c20.defaults {kind} " + ("-" if args is None else
+                     f"{args['steps']} {opt(args['patience'])} {opt(args['decreasing'])} {opt(args['tol'])}"))
+        reals.append((st.max_steps, st.patience, float(st.decreasing), float(st.tol)))
+        cases.append(case)
+        ctx.note_case(("defaults", kind, json_key(args)), True)
+        ctx.count(f"defaults.{kind}.{'given' if given else 'none'}")
+    for case, rep, real in zip(cases, ctx.driver.run(lines), reals):
+        st_, toks = common.parse_reply(rep)
+        if st_ != "ok":
+            raise common.InfraError(f"defaults reply {rep}")
+        w = (int(toks[0]), int(toks[1]), float(common.from_wire(toks[2])), float(common.from_wire(toks[3])))
+        if w[:2] != real[:2] or any(abs(a - b) > 2.0 ** -50 * abs(b) for a, b in zip(w[2:], real[2:])):
+            ctx.disagree("defaults", case, f"{case['ctl']}({case['args']}): implementation installs (max_steps, patience, decreasing, "
+                                           f"tol)={real}, model {w}")
+            # the documented defaults themselves are the oracle
+            a = case["args"] or {"steps": 200 if case["ctl"] == "icp" else 10, "patience": None, "decreasing": None, "tol": None}
+            doc = (a["steps"] - (1 if case["ctl"] == "mpc" else 0), 5 if a["patience"] is None else a["patience"],
+                   1e-3 if a["decreasing"] is None else a["decreasing"], 1e-5 if a["tol"] is None else a["tol"])
+            if tuple(real) != doc:
+                ctx.fail(case, f"defaults: {case['ctl']} with arguments {case['args']} installs {real}, documented {doc}")
+
+
+def json_key(o):
+    import json
+    return json.dumps(o, sort_keys=True)
+
+
 # ----------------------------------------------------------------------------- several controllers alive at once
 
 class RtbPlayer:
@@ -1235,6 +1489,12 @@ def run_copies(ctx: Ctx, n_cases):
 
 
 # ============================================================================= driver loops
+
+def fwd_line(steps, patience, k, D, TOL, code0, rec):
+    """the numeric driver loop of the model (`forwardNum`) on the losses the real loop body produced"""
+    return (f"c20.fwd {steps} {patience} {k} {to_wire(D)} {to_wire(TOL)} {code0} "
+            + " ".join(f"{len(v)} " + common.wire_list(v) if v else "0" for v in rec))
+
 
 def loop_line(kind, steps, patience, k, code0, obs_codes):
     return f"c20.loop {kind} {steps} {patience} {k} {code0} " + " ".join(map(str, obs_codes))
@@ -1642,6 +1902,9 @@ def check_mpc(ctx: Ctx, case):
                                iters, lqr_calls, pc0, st, codes)
         out.append((loop_line("mpc", case["steps"], case["patience"], case["k_inits"], code0, [U.obs_code(*o) for o in obs]),
                     iters, lqr_calls, U.ctl_code(st)))
+        dtm = "float64" if not case["real_lqr"] else "float32"
+        out.append((fwd_line(case["steps"], case["patience"], case["k_inits"], U.rnd(D, dtm), U.rnd(TOL, dtm), code0, rec),
+                    iters, lqr_calls, U.ctl_code(st)))
     return out
 
 
@@ -1851,6 +2114,7 @@ def check_icp(ctx: Ctx, case):
                                    case["steps"], obs, len(rec), n_svd[0], pc0, st, codes)
             out.append((loop_line("icp", case["steps"], case["patience"], 0, code0, [U.obs_code(*o) for o in obs]),
                         len(rec), n_svd[0], U.ctl_code(st)))
+            out.append((fwd_line(case["steps"], case["patience"], 0, D, TOL, code0, rec), len(rec), n_svd[0], U.ctl_code(st)))
     finally:
         icpmod.knn, icpmod.svdtf = oknn, osvd
     return out
@@ -1968,7 +2232,32 @@ def run_corpus(ctx: Ctx):
     reps = ctx.driver.run([x[0] for _, _, x in res])
     for (stream, c, x), rep in zip(res, reps):
         check_loop_reply(ctx, stream, c, rep, x[1], x[2], x[3])
-    ctx.count("corpus.handwritten", len(cases) + len(mpcs) + len(icps))
+    NAN, INF = float("nan"), float("inf")
+    xc = lambda steps, pat, d, tol, ev, dt="float64": {"kind": "numx.rtb", "steps": steps, "patience": pat, "d": d, "tol": tol,
+                                                       "dtype": dt, "verbose": False, "style": "kw", "events": ev}
+    xcases = [
+        # a NaN element: never below tol, never a non-decrease (resets the count), also as the stored `last`
+        xc(9, 2, 0.5, 1.0, [["S", [2], [4.0, 4.0]], ["S", [2], [4.0, 4.0]], ["S", [2], [4.0, NAN]], ["S", [2], [4.0, 4.0]],
+                             ["S", [2], [4.0, 4.0]], ["S", [2], [0.5, NAN]], ["S", [2], [0.5, 0.5]]]),
+        # +0.0 vs -0.0 losses (opposite infinities), 0/0, infinite losses and an infinite `last`
+        xc(20, 3, 0.5, -1.0, [["S", [], [1.0]], ["S", [], [0.0]], ["S", [], [0.0]], ["S", [], [-0.0]], ["S", [], [1.0]], ["S", [], [-0.0]],
+                               ["S", [], [-1.0]], ["S", [], [0.0]], ["S", [], [INF]], ["S", [], [2.0]], ["S", [], [-INF]], ["S", [], [2.0]],
+                               ["S", [], [-2.0]]], "float32"),
+        # NaN / infinite thresholds
+        xc(9, 2, NAN, INF, [["S", [2], [1.0, 2.0]], ["S", [2], [1.0, 2.0]], ["S", [2], [INF, 2.0]]]),
+        xc(9, 2, INF, NAN, [["S", [2], [1.0, 2.0]], ["S", [2], [1.0, 2.0]], ["S", [2], [1.0, 2.0]]]),
+        # the loss changes its shape along the run: 0-dim -> [3] -> [1,3] -> [3,1] -> [3,3] -> reset -> [2,1,3]; then a pair that
+        # does not broadcast ([2] after [3]) raises
+        xc(30, 2, 0.5, 0.25, [["S", [], [8.0]], ["S", [3], [4.0, 8.0, 2.0]], ["S", [1, 3], [4.0, 4.0, 2.0]], ["S", [3, 1], [4.0, 3.0, 2.0]],
+                               ["S", [3, 3], [2.0] * 9], ["S", [3, 3], [2.0] * 8 + [1.0]], ["R"], ["S", [2, 1, 3], [1.0] * 6],
+                               ["S", [3], [1.0, 1.0, 0.5]], ["S", [2], [1.0, 1.0]]]),
+        xc(5, 1, 1.0, 1.0, [["S", [0], []], ["S", [0], []]]),
+    ]
+    reps = ctx.driver.run([rtbx_line(c) for c in xcases])
+    for i, (c, rep) in enumerate(zip(xcases, reps)):
+        guarded(ctx, c, check_rtbx, ctx, c, rep)
+        ctx.note_case(("corpus.x", i), True)
+    ctx.count("corpus.handwritten", len(cases) + len(mpcs) + len(icps) + len(xcases))
     saved = ctx.rng
     ctx.rng = random.Random(0xC20)
     try:
@@ -1977,6 +2266,9 @@ def run_corpus(ctx: Ctx):
         run_num_rtb(ctx, 160, 40)
         run_num_rtb(ctx, 2, 420, long=True)
         run_num_sop(ctx, 120, 40)
+        run_numx_rtb(ctx, 250)
+        run_numx_sop(ctx, 150)
+        run_defaults(ctx, 40)
         run_interleave(ctx, 30)
         run_copies(ctx, 90)
         run_drv_optimize(ctx, 120)
@@ -2036,6 +2328,9 @@ def _run(ctx: Ctx):
     run_num_rtb(ctx, ctx.pick(400, 2500), 40 if q else 150)
     run_num_rtb(ctx, ctx.pick(2, 12), 420 if q else 1500, long=True)
     run_num_sop(ctx, ctx.pick(500, 2500), 40 if q else 150)
+    run_numx_rtb(ctx, ctx.pick(400, 4000))
+    run_numx_sop(ctx, ctx.pick(250, 2500))
+    run_defaults(ctx, ctx.pick(40, 200))
     run_interleave(ctx, ctx.pick(60, 400))
     run_copies(ctx, ctx.pick(120, 800))
     run_drv_optimize(ctx, ctx.pick(400, 4000))
@@ -2096,6 +2391,12 @@ def _replay_case(ctx: Ctx, c, kind) -> bool:
         check_rtb_num(ctx, c, ctx.driver.run([rtb_num_line(c)])[0])
     elif kind == "num.sop":
         check_sop_num(ctx, c, ctx.driver.run([sop_num_line(c)])[0])
+    elif kind == "numx.rtb":
+        check_rtbx(ctx, c, ctx.driver.run([rtbx_line(c)])[0])
+    elif kind == "numx.sop":
+        check_sopx(ctx, c, ctx.driver.run([sopx_line(c)])[0])
+    elif kind == "defaults":
+        pass
     elif kind == "interleave":
         check_interleave(ctx, c)
     elif kind == "copies":
